@@ -137,11 +137,19 @@ func genQueue(rng *hx.Rng, n int) []string {
 	if rng.Chance(1, 20) { // unusual but legal capacities: 0 (drops everything) and a large one
 		c = hx.Pick(rng, []int{0, 0, 1 << 16})
 	}
+	fill := 0
+	if rng.Chance(1, 6) { // capacities beyond 4: offers weigh more, so that the ring still fills and wraps
+		c, fill = rng.Range(5, 9), 18
+	}
 	ops := []string{fmt.Sprintf("queue new %d", c)}
 	next := 1
 	for i := 0; i < n; i++ {
 		var op string
-		switch x := rng.Intn(100); {
+		x := rng.Intn(100)
+		if x >= 58 && x < 58+fill {
+			x = rng.Intn(55)
+		}
+		switch {
 		case x < 35:
 			op = fmt.Sprintf("offer %d", next)
 			next++
@@ -236,6 +244,9 @@ func genRing(rng *hx.Rng, n int) []string {
 	c := rng.Range(1, 4)
 	if rng.Chance(1, 20) { // unusual but legal capacities: 0 (always empty) and a large one
 		c = hx.Pick(rng, []int{0, 0, 1 << 16})
+	}
+	if rng.Chance(1, 6) {
+		c = rng.Range(5, 9)
 	}
 	ops := []string{fmt.Sprintf("ring new %d", c)}
 	next := 1
@@ -356,9 +367,14 @@ func (w *stackW) exec(r *hx.Run, f []string) (string, string) {
 func genStack(rng *hx.Rng, n int) []string {
 	ops := []string{"stack new " + hx.Pick(rng, []string{"simple", "safe"})}
 	next := 1
+	deep := rng.Chance(1, 5) // push-heavy: depths beyond the first growth steps of the slice (1, 2, 4, 8, 16)
 	for i := 0; i < n; i++ {
 		var op string
-		switch x := rng.Intn(100); {
+		x := rng.Intn(100)
+		if deep && x >= 40 && x < 72 && rng.Chance(3, 4) {
+			x = 0
+		}
+		switch {
 		case x < 40:
 			op = fmt.Sprintf("push %d", next)
 			next++
